@@ -20,14 +20,15 @@ for d in sorted(glob.glob("/verif/seeded/*/")):
         print(name, "SKIP (no demo_file/demo_cmd in meta)"); continue
     sh("git checkout -q -- . && git clean -fdq")
     demo = meta["demo_file"]; ddir = meta["demo_dir"].strip("/") or "."
-    shutil.copy(d+demo, f"{WT}/{ddir}/{demo}")
+    demos = meta.get("demo_files", [demo])
+    for df in demos: shutil.copy(d+df, f"{WT}/{ddir}/{df}")
     r0 = sh(meta["demo_cmd"])
     a = sh(f"git apply {d}patch.diff")
     if a.returncode != 0:
         print(name, "PATCH DOES NOT APPLY"); bad += 1; continue
     b = sh("go build ./...")
     r1 = sh(meta["demo_cmd"])
-    os.remove(f"{WT}/{ddir}/{demo}")
+    for df in demos: os.remove(f"{WT}/{ddir}/{df}")
     s = sh("go test -vet=off -count=1 ./... 2>&1 | grep -v 'no test files' | grep -v '^ok' | head -5")
     ok = (r0.returncode == 0 and r1.returncode != 0 and b.returncode == 0 and s.stdout.strip() == "")
     if not ok: bad += 1
